@@ -1,3 +1,4 @@
+\* CONTROL: behaviour before the fix commit (Fix = FALSE); this run MUST violate the property below
 CONSTANTS
   Limit = 1
   Jobs = {"j1", "j2"}
